@@ -328,12 +328,16 @@ def _struct_unpack(fmt, data):
         if size is None:
             raise EngineLimit('struct format char %r' % c)
         for _ in range(_int(cnt or '1')):
-            v = 0
-            for b in it[pos:pos + size]:
-                if isinstance(v, _int) and v == 0:
-                    v = b
-                else:
-                    v = (SymInt.lift(v) << 8) | b
+            chunk = it[pos:pos + size]
+            if symdata._concrete(chunk):
+                v = _int.from_bytes(_bytes(chunk), 'big')
+            else:
+                v = 0
+                for b in chunk:
+                    if isinstance(v, _int) and v == 0:
+                        v = b
+                    else:
+                        v = (SymInt.lift(v) << 8) | b
             pos += size
             out.append(v)
     return tuple(out)
